@@ -21,7 +21,7 @@ func TestVerif_C01(t *testing.T) {
 		return
 	}
 	rapid.Check(t, func(t *rapid.T) {
-		g := newGM(t, []string{"a", "b", "c"}, kit.GenCfg{})
+		g := newGM(t, []string{"a", "b", "c"}, kit.GenCfg{Nulls: true})
 		defer g.close()
 		defer func() {
 			nt := g.has("overwrite", "in-batch-repeat", "undelete", "id-in-2-datasets", "equal-length-rewrite")
